@@ -15,13 +15,28 @@ Init == l \in 1..Len(Trace)
 Next == UNCHANGED l
 
 Obs      == Trace[l]
+IsCase   == Obs.kind = "case"
+IsResume == Obs.kind = "resume"
 Accepted == Obs.cert.chainLen >= 1 /\ Obs.tls      \* the router saw the request as coming from account Obs.cert.cn
 
-AuthHolds  == AuthProp(Obs.cert, Obs.reg, Accepted)
-VpcHolds   == VpcProp(Obs.cert, Obs.reg, Obs.vpc)
-ScopeHolds == ScopeProp(Obs.cert, Obs.reg, Obs.path, Accepted, Obs.served)
+AuthHolds  == IsCase => AuthProp(Obs.cert, Obs.reg, Accepted)
+VpcHolds   == IsCase => VpcProp(Obs.cert, Obs.reg, Obs.vpc)
+ScopeHolds == IsCase => ScopeProp(Obs.cert, Obs.reg, Obs.path, Accepted, Obs.served)
 
-Conforms   == /\ Obs.vpc = VerifyPeer(Obs.cert, Obs.reg)
-              /\ Obs.tls = TlsAccept(Obs.cert, Obs.reg)
-              /\ Obs.served = Served(Obs.cert, Obs.reg, Obs.path)
+\* resume lines: tls0 = first connection accepted, resumed = the second one was a session resumption (client side)
+Ident     == IF Obs.resumed THEN Obs.cert ELSE Presented(Obs.cert, Obs.present)
+Accepted2 == Obs.tls /\ Ident.chainLen >= 1
+ResumeHolds      == IsResume => ResumeProp(Obs.cert, Obs.reg, Obs.change, Obs.present, Obs.resumed, Accepted2)
+ResumeScopeHolds == IsResume => ScopeProp(Ident, Obs.reg, Obs.path, Accepted2, Obs.served)
+\* strict reading, an OBSERVATION only
+RevocationEffective == IsResume => RevocationProp(Obs.cert, Obs.reg, Obs.change, Obs.present, Obs.resumed, Accepted2)
+
+Conforms ==
+    /\ IsCase => /\ Obs.vpc = VerifyPeer(Obs.cert, Obs.reg)
+                 /\ Obs.tls = TlsAccept(Obs.cert, Obs.reg)
+                 /\ Obs.served = Served(Obs.cert, Obs.reg, Obs.path)
+    /\ IsResume => /\ Obs.tls0 = TlsAccept(Obs.cert, Obs.reg)
+                   /\ Obs.resumed = Resumes(Obs.cert, Obs.reg)
+                   /\ Obs.tls = Tls2(Obs.cert, Obs.reg, Obs.change, Obs.present)
+                   /\ Obs.served = Served2(Obs.cert, Obs.reg, Obs.change, Obs.present, Obs.path)
 ================================================================================
